@@ -7,8 +7,9 @@
   A decorated function is a chain of wrapper instances around a plain function: `chain` lists
   (class, parameters) from the outside in, `base` names the plain function.  The memo field
   `function_fullargspec` is not part of the model (it is filled lazily and does not affect behaviour).
-  Object identity is not modelled: the constructor edits inner wrapper objects of its operand in place
-  (`f[_function] = f.function.function`), the model returns a new chain.
+  The constructor returns a new chain and leaves its operand as it is (repaired code, P7: the pinned constructor
+  edited inner wrapper objects of its operand in place, `f[_function] = f.function.function`); several objects
+  alive at once are `stepM` / `runMulti` in WrapHist.lean.
 -/
 import PygModel.Bind
 
